@@ -54,7 +54,9 @@ package history
 //@   invariant forall q string :: (q in unique) <==> (exists k int :: 0 <= k && k < $i && sh.Entries[k].Query == q)
 
 //@ func (*SearchHistory).Clear
-//@   modifies sh.*
+//@   requires !fsPartial(sh.FilePath)
+//@   modifies sh.*, ghost(fsPartial), ghost(fsWhole)
+//@   ensures[C09.clear-never-partial] !fsPartial(sh.FilePath)
 //@   ensures[C16.clear-empty] len(sh.Entries) == 0 && sh.MaxSize == old(sh.MaxSize)
 
 // GetTopQueries: at most limit (default 10) rows, each a query of the history with a count of at
